@@ -327,11 +327,15 @@ impl Store {
 
         // Handle broadcast subscription and heartbeat
         if let Some(broadcast_rx) = broadcast_rx {
+            // Dropped when the live task ends (limit reached, subscriber lagged or gone): tells
+            // the heartbeat task to stop, so that the stream ends instead of pulsing forever.
+            let (live_done_tx, mut live_done_rx) = tokio::sync::oneshot::channel::<()>();
             {
                 let tx = tx.clone();
                 let limit = options.limit;
 
                 tokio::spawn(async move {
+                    let _live_done_tx = live_done_tx;
                     // If we have a done_rx, wait for historical processing
                     let (last_id, mut count) = match done_rx {
                         Some(done_rx) => match done_rx.await {
@@ -389,7 +393,10 @@ impl Store {
                 let heartbeat_tx = tx;
                 tokio::spawn(async move {
                     loop {
-                        tokio::time::sleep(duration).await;
+                        tokio::select! {
+                            _ = &mut live_done_rx => break,
+                            _ = tokio::time::sleep(duration) => {}
+                        }
                         let frame =
                             Frame::builder("xs.pulse", options.context_id.unwrap_or(ZERO_CONTEXT))
                                 .id(scru128::new())
